@@ -70,10 +70,11 @@ def judge(proj, rec, box, cfg, built, expected, k, mode, sync=True):
     if other:
         v.append(("other-project-file-changed", {"files": other}))
     if mode == "check":
-        last_n = max((o["n"] for o in ops), default=0)
+        # the final summary line is printed after the last file has been dealt with and the pass has been declared complete
+        summary_n = next((o["n"] for o in ops if o["kind"] == "stdio" and "Total missing references (all files)" in (o.get("path2") or "")), None)
         complete_tree = proj.label.startswith("t_complete")
-        if rec.rc == 0 and sync and not before_handlers and complete_tree and k >= last_n:
-            pass    # the signal came with the very last thing the run did (its final summary line): the check had finished
+        if rec.rc == 0 and sync and not before_handlers and complete_tree and summary_n is not None and k >= summary_n:
+            pass    # the signal came with (or after) the run's final summary line: the check had finished, nothing was left to do
         elif rec.rc == 0 and (sync and not before_handlers):
             # "an interrupted --check never passes", whether or not the tree has statements without reference
             v.append(("interrupted-check-exited-0", {"tree_complete": not any(s != "original" for s in states.values()) and proj.label.startswith("t_complete")}))
